@@ -115,9 +115,11 @@ func (m *Mutex) Unlock() {
 type RWMutex struct {
 	writer  bool
 	readers int
-	ownerName string
-	q       simrt.WaitQ
-	hb      simrt.SyncObj
+	// waitingWriters: as in sync.RWMutex, a blocked Lock excludes new readers (so a recursive RLock can deadlock)
+	waitingWriters int
+	ownerName      string
+	q              simrt.WaitQ
+	hb             simrt.SyncObj
 }
 
 func (m *RWMutex) Lock() {
@@ -125,12 +127,14 @@ func (m *RWMutex) Lock() {
 		return
 	}
 	simrt.Yield("lock")
+	m.waitingWriters++
 	for m.writer || m.readers > 0 {
 		if Debug {
 			simrt.SetNote(fmt.Sprintf("rwmutex %p writer=%v readers=%d held by %s", m, m.writer, m.readers, m.ownerName))
 		}
 		simrt.Park(&m.q)
 	}
+	m.waitingWriters--
 	m.writer = true
 	if t := simrt.Self(); t != nil {
 		m.ownerName = t.Name
@@ -157,7 +161,7 @@ func (m *RWMutex) RLock() {
 		return
 	}
 	simrt.Yield("rlock")
-	for m.writer {
+	for m.writer || m.waitingWriters > 0 {
 		simrt.Park(&m.q)
 	}
 	m.readers++
